@@ -354,7 +354,7 @@ def run(c, facts, tier):
         if not ta.can_succeed(a0):
             kinds["dead"].append(a0)
             continue
-        if a0["t"] == "map" and unwrap(a0["p"])["t"] == "tokset":
+        if (a0["t"] == "map" and unwrap(a0["p"])["t"] == "tokset") or (a0["t"] == "tokset" and a0.get("vmap") is not None):
             kinds["primary"].append(a0)
             continue
         if a0["t"] == "ref":
@@ -378,36 +378,42 @@ def run(c, facts, tier):
     )
     # primary identity table
     for pm in kinds["primary"]:
-        ts = unwrap(pm["p"])
+        ts = pm if pm["t"] == "tokset" else unwrap(pm["p"])
         c.ob(
             "C01.atom",
             atom,
             "primary token classes",
             sorted(ts["toks"]) == sorted(prim.keys()) and not ts.get("neg"),
-            "one_of accepts %s; reference primaries: %s" % (sorted(ts["toks"]), sorted(prim.keys())),
+            "the primary alternative accepts %s; reference primaries: %s" % (sorted(ts["toks"]), sorted(prim.keys())),
         )
-        f = pm["f"]
-        table = {}
-        bad = []
-        if f["k"] == "closure" and len(f["params"]) == 1:
-            body = rx.closure_body(f)
-            if body["k"] == "match":
-                for arm in body["arms"]:
-                    pv = rx.pat_variant(arm["pat"])
-                    if pv and pv[0].startswith(spec["token_enum"] + "::"):
-                        chain, args = rx.ctor_chain(arm["body"])
-                        subs = pv[1]
-                        if chain and len(chain) == 1 and args is not None and len(args) == 1 and len(subs) == 1 and subs[0]["k"] == "ident" and rx.is_var(args[0], subs[0]["name"]):
-                            table[pv[0].split("::")[1]] = rx.canon_path(chain[0], scope)
-                        else:
-                            bad.append(psrc_arm(arm))
+        # the expression built for a token of each class, evaluated with an unknown payload (vlib/irval.py): whatever way the
+        # table is written (match in a closure, a named function, verify_map), Token::X(v) must become Expression::X(v)
+        from .. import probe as P, irval
+
+        table, bad = {}, []
+        for tk in ts["toks"]:
+            pay = [P.Opq("payload") for _ in facts.variant_fields(spec["token_enum"], tk)]
+            tok = ("enum", "%s::%s" % (spec["token_enum"], tk), pay)
+
+            class TC(irval.Ctx):
+                def leaf(self, node):
+                    return tok
+
+            try:
+                v = irval.value(pm, TC(facts, b, facts.fn(atom).module))
+                if isinstance(v, tuple) and v and v[0] == "enum" and len(v[2]) == len(pay) and all(x is y for x, y in zip(v[2], pay)):
+                    table[tk] = rx.canon_path(v[1], scope)
+                else:
+                    bad.append("%s → %r" % (tk, v))
+            except (P.NoEval, P.Panic) as ex:
+                bad.append("%s: %s" % (tk, ex))
         want_tab = {k: "%s::%s" % (spec["expr_enum"], v) for k, v in prim.items()}
         c.ob(
             "C01.atom",
             atom,
             "Token::X(v) → Expression::X(v) identity table",
             table == want_tab and not bad,
-            "extracted %s; reference %s%s" % (table, want_tab, ("; unrecognised arms %s" % bad) if bad else ""),
+            "evaluated %s; reference %s%s" % (table, want_tab, ("; not the payload unchanged: %s" % bad) if bad else ""),
         )
     # not
     for fnk, body, inner in kinds["not"]:
@@ -508,34 +514,30 @@ def run(c, facts, tier):
 
     # ---------------------------------------------------------------- lexing of operator words
     tokfn = an.role("token")
-    tfb = b.fn_ir(tokfn)
-    talts = flat_alts(tfb["tail"]) if tfb["tail"] is not None else []
+    # the flattened, ordered alternatives of token(): helper functions, nested alts, shared follow guards and per-word or
+    # per-group `.value(..)` / `.map(..)` all come out as one entry per leading literal (vlib/kw.py)
+    from .. import kw as _kw
+
     lexmap = {}
     guards = {}
     classes = {}
-    for a in talts:
-        a0 = unwrap(a)
-        if a0["t"] == "value":
-            val = rx.path_str(a0["v"]) if a0["v"] else None
-            inner = unwrap(a0["p"])
-            lits, guard = [], None
-            if inner["t"] == "lit":
-                lits = [inner["s"]]
-            elif inner["t"] == "alt":
-                lits = [unwrap(x)["s"] for x in flat_alts(inner) if unwrap(x)["t"] == "lit"]
-            elif inner["t"] == "seq" and len(inner["items"]) == 2 and inner["items"][0]["keep"] and not inner["items"][1]["keep"]:
-                lits = [unwrap(x)["s"] for x in flat_alts(inner["items"][0]["p"]) if unwrap(x)["t"] == "lit"]
-                guard = inner["items"][1]["p"]
-            for l in lits:
-                lexmap[l] = val
-                guards[l] = guard
-        elif a0["t"] == "map":
-            inner = unwrap(a0["p"])
-            if inner["t"] == "seq":
-                kept = [unwrap(i["p"]) for i in inner["items"] if i["keep"]]
-                inner = kept[0] if len(kept) == 1 else inner
-            if inner["t"] == "ref":
-                classes[rx.path_str(a0["f"]) or src(a0["f"])] = inner["fn"]
+    tscope = b.scope(facts.fn(tokfn).module)
+    for a in _kw.alternatives(g, tokfn):
+        outer = None
+        for f_ in list(a.values) + list(a.maps):
+            if f_ is not None and rx.path_str(f_) and rx.canon_path(rx.path_str(f_), tscope).startswith(spec["token_enum"] + "::"):
+                outer = rx.canon_path(rx.path_str(f_), tscope)
+        if a.lit is not None and len(a.path) == 1 or (a.lit is not None and all(facts.fns[k_].impl is None for k_ in a.path)):
+            if a.lit not in lexmap:
+                lexmap[a.lit] = outer
+                dropped = [r_["n"] for r_ in a.rest if not r_["keep"]]
+                guards[a.lit] = dropped[0] if len(dropped) == 1 and len(a.rest) == 1 else None
+        else:
+            # an alternative written inside the parser of a primary class (impl Parseable for Test/Action/..)
+            cls = next((k_ for k_ in a.path if facts.fns[k_].impl is not None), None)
+            if outer is not None and cls is not None:
+                classes.setdefault(outer, set()).add(cls)
+    classes = {k_: (sorted(v_)[0] if len(v_) == 1 else "several parsers: %s" % sorted(v_)) for k_, v_ in classes.items()}
     te = spec["token_enum"]
     for word, tk in spec["lex"].items():
         c.ob(
